@@ -4,6 +4,7 @@ import (
 	"fmt"
 	"go/types"
 	"strings"
+	"time"
 
 	"golang.org/x/tools/go/ssa"
 )
@@ -20,6 +21,9 @@ type FuncReport struct {
 	Intrinsic []string
 	HasCtr    bool
 	TrivialNames map[string]string
+	ClauseProps  map[string][]string
+	FnProps      []string
+	isRoot       bool
 }
 
 func newState() *State {
@@ -31,8 +35,8 @@ func newState() *State {
 // safety-only contract when it has none) and returns the obligations.
 func (e *Engine) VerifyFunction(fn *ssa.Function) *FuncReport {
 	ct := e.contractFor(fn)
-	ex := &Exec{eng: e, root: fn, rootName: shortFn(fn), maxSteps: 3000000, inlined: map[string]bool{}, usedCtr: map[string]bool{},
-		intrUsed: map[string]bool{}, trivialNames: map[string]string{}, ordinals: map[ssa.Instruction]string{}, maxForks: 400}
+	ex := &Exec{eng: e, root: fn, rootName: shortFn(fn), maxSteps: 3000000, maxPaths: 3000, inlined: map[string]bool{}, usedCtr: map[string]bool{},
+		intrUsed: map[string]bool{}, trivialNames: map[string]string{}, clauseProps: map[string][]string{}, ordinals: map[ssa.Instruction]string{}, maxForks: 200}
 	rep := &FuncReport{Fn: ex.rootName, HasCtr: ct != nil}
 	if ct == nil {
 		ct = &Contract{Fn: fn.String(), Loops: map[int]*LoopSpec{}, Nullable: map[string]bool{}}
@@ -94,6 +98,8 @@ func (e *Engine) VerifyFunction(fn *ssa.Function) *FuncReport {
 		}
 	}()
 	entry := st.Clone()
+	ex.entry = entry
+	ex.rootVars = env0.vars
 	// frame checking
 	var modAddrs []modItem
 	func() {
@@ -143,8 +149,28 @@ func (e *Engine) VerifyFunction(fn *ssa.Function) *FuncReport {
 				continue
 			}
 			ex.addObl(st2, "post", c.Label, g, c.Text)
+			if n := len(ex.obls); n > 0 && ex.obls[n-1].Label == c.Label {
+				ex.obls[n-1].Props = c.Props
+			}
+			if len(c.Props) > 0 {
+				ex.clauseProps[ex.rootName+"#"+c.Label] = c.Props
+			}
 		}
 	}
+	ex.deadline = time.Now().Add(time.Duration(envInt("GOV_FN_SECONDS", 30)) * time.Second)
+	func() {
+		defer func() {
+			if r := recover(); r != nil {
+				if a, ok := r.(abortAll); ok {
+					ex.fail(a.reason)
+					return
+				}
+				panic(r)
+			}
+		}()
+		ex.guardedRoot(fn, args, st, retK)
+	}()
+	if false {
 	ex.guard(func() {
 		fr := &Frame{fn: fn, regs: map[ssa.Value]Value{}, depth: 0, retK: retK}
 		for i, p := range fn.Params {
@@ -152,9 +178,14 @@ func (e *Engine) VerifyFunction(fn *ssa.Function) *FuncReport {
 		}
 		ex.runBlock(fr, fn.Blocks[0], nil, st, map[*ssa.BasicBlock]int{})
 	})
+	}
 	rep.Obls = ex.obls
 	rep.Trivial = ex.trivial
 	rep.TrivialNames = ex.trivialNames
+	rep.ClauseProps = ex.clauseProps
+	if c := e.contractFor(fn); c != nil {
+		rep.FnProps = c.Props
+	}
 	rep.Paths = ex.paths
 	rep.Steps = ex.steps
 	rep.Failed = dedupe(ex.failed)
@@ -162,6 +193,16 @@ func (e *Engine) VerifyFunction(fn *ssa.Function) *FuncReport {
 	rep.UsedCtr = keys(ex.usedCtr)
 	rep.Intrinsic = keys(ex.intrUsed)
 	return rep
+}
+
+func (ex *Exec) guardedRoot(fn *ssa.Function, args []Value, st *State, retK func(st *State, results []Value)) {
+	ex.guard(func() {
+		fr := &Frame{fn: fn, regs: map[ssa.Value]Value{}, depth: 0, retK: retK}
+		for i, p := range fn.Params {
+			fr.regs[p] = args[i]
+		}
+		ex.runBlock(fr, fn.Blocks[0], nil, st, map[*ssa.BasicBlock]int{})
+	})
 }
 
 func dedupe(ss []string) []string {
